@@ -139,6 +139,10 @@ fn cmd_ref(a: &Args) {
     let cur_path = format!("{}.cur", a.req("out"));
     for i in idx {
         let s = &cat.sources[i];
+        if reverse && s.text.len() > 64 * 1024 {
+            // the long sources are lexed in the forward pass only
+            continue;
+        }
         if let Some(key) = skip.get(&s.id) {
             let _ = writeln!(out, "{}\t{}\tDidNotReturn\t0\t0\t", s.id, key);
             continue;
